@@ -11,19 +11,22 @@
 //!     non-decreasing terms, and `prev` is a position of the sender's log.
 //!   * ops: NewLeader / LeaderGrow (tail append with the leader's term; on the real log when the leader
 //!     is local) / Replicate (`filter_out_conflicts_and_append` with any prev of the leader's log: all
-//!     overlap shapes, duplicates, stale prefixes, rejections, prev=0) / Purge (leader-style: below the
+//!     overlap shapes, duplicates, stale prefixes, rejections, prev=(0,0) catch-up from the start, also over a
+//!     purged prefix) / Purge (leader-style: below the
 //!     tail; follower-style: any committed index, also beyond the local tail as after a snapshot
 //!     install) / Reset / TermStorm (n elections in a row, each appending one entry).
 //! Oracle after EVERY op: last_log_id, first/last_entry_id, is_empty, last_entry, entry_term(i) and
 //! entry(i) for i in 0..=max+3, first/last_index_for_term(t) for every term, several
 //! get_entries_range reads, and the return value of filter_out_conflicts_and_append where the
 //! documentation is unambiguous.
+use std::sync::Arc;
+
 use d_engine_core::RaftLog;
 use d_engine_proto::common::Entry;
 use proptest::prelude::*;
 use serde::{Deserialize, Serialize};
 
-use super::logutil::{block_on, catch_quiet, ent, lid, show, ConflictAppend, Log, LogBox, PlainLog};
+use super::logutil::{block_on, catch_quiet, ent, lid, show, ConflictAppend, Log, LogBox, PlainLog, Rep};
 use crate::runner::{fp, pick, Check, Outcome, Tier};
 
 #[derive(Clone, Debug, Serialize, Deserialize, Hash)]
@@ -144,7 +147,8 @@ impl Check for C19 {
     fn assumptions(&self) -> Vec<String> {
         vec![
             "callers respect the documented preconditions: request entries consecutive with non-decreasing terms, (index,term) identifies an entry, prev is a position of the sender's log, filter_out_conflicts_and_append is never called with an empty entry list (handle_append_entries guards it), purge cutoffs are committed indexes that grow monotonically, the leader keeps at least one entry after a purge".into(),
-            "prev=(0,0) is modelled as documented (reset and replace); the reset itself is not judged here (owned by C05/C08)".into(),
+            "prev=(0,0) is the virtual position before the first entry and matches every log (code comment in filter_out_conflicts_and_append); request entries at or below the purge boundary are skipped; when nothing is left the call acknowledges the boundary (judged only when the request ends exactly at the boundary)".into(),
+            "a leader proposal (generate_new_entries -> pre_allocate_id_range) must land right after the leader's last entry".into(),
             "after a reset() with a non-zero purge boundary the boundary-dependent answers (last_log_id of the empty log, entry_term(boundary)) are not compared: documentation says 'clear all metadata', code keeps the boundary".into(),
             "return value of filter_out_conflicts_and_append: compared only when prev=(0,0), on rejection (None or current last id, both documented) and on success when the request's last entry is also the log's last entry; when entries beyond the request are retained the two readings (last matched / new last log id) differ and the value is not judged".into(),
             "in-memory view only: durability / reopen is owned by C18/C20".into(),
@@ -152,7 +156,7 @@ impl Check for C19 {
     }
     fn cases(&self, tier: Tier) -> u32 {
         match tier {
-            Tier::Quick => 20_000,
+            Tier::Quick => 40_000,
             Tier::Thorough => 1_500_000,
         }
     }
@@ -215,7 +219,7 @@ impl Check for C19 {
 
 async fn interpret(
     c: &Case,
-    log: &Log,
+    log: &Arc<Log>,
     trace: &mut Vec<u64>,
     labels: &mut Vec<&'static str>,
     nontrivial: &mut bool,
@@ -266,10 +270,10 @@ async fn interpret(
                 trace.extend([1, start, n as u64, w.cur_term, w.leader_local as u64]);
                 if w.leader_local {
                     // leader appends at its tail with its current term (what generate_new_entries does)
-                    if opno % 2 == 0 {
-                        log.append_entries(es.clone()).await.map_err(|_| Stop::IoError)?;
-                    } else {
-                        log.insert_batch(es.clone()).await.map_err(|_| Stop::IoError)?;
+                    match opno % 3 {
+                        0 => log.append_entries(es.clone()).await.map_err(|_| Stop::IoError)?,
+                        1 => log.insert_batch(es.clone()).await.map_err(|_| Stop::IoError)?,
+                        _ => leader_generate(log, &es, w.cur_term, opno, w.model.boundary.0).await?,
                     }
                     w.model.append(&es);
                     labels.push("local_leader_append");
@@ -306,7 +310,9 @@ async fn interpret(
                 trace.extend([2, *local as u64, w.leader_log.len() as u64, new_term, n as u64]);
                 labels.push(if *local { "new_leader_local" } else { "new_leader_remote" });
                 if w.leader_local && !es.is_empty() {
-                    log.append_entries(es.clone()).await.map_err(|_| Stop::IoError)?;
+                    // a freshly elected leader proposes through generate_new_entries (index allocation)
+                    leader_generate(log, &es, new_term, opno, w.model.boundary.0).await?;
+                    labels.push("new_leader_local_proposes");
                     w.model.append(&es);
                     if w.trunc_cur_seg_pending {
                         w.nontrivial = true;
@@ -351,15 +357,8 @@ async fn interpret(
                 }
                 let llen = w.leader_log.len() as u64;
                 let prev = match anchor {
-                    // `back` never turns a non-zero anchor into the prev=(0,0) reset request
-                    1 => {
-                        let a = w.model.last().min(llen);
-                        a.saturating_sub(*back as u64).max(a.min(1))
-                    }
-                    2 => {
-                        let a = w.local_full().map(|f| World::matched(&f, &w.leader_log)).unwrap_or(0).min(llen);
-                        a.saturating_sub(*back as u64).max(a.min(1))
-                    }
+                    1 => w.model.last().min(llen).saturating_sub(*back as u64),
+                    2 => w.local_full().map(|f| World::matched(&f, &w.leader_log)).unwrap_or(0).min(llen).saturating_sub(*back as u64),
                     _ => pick(*prev_free, llen as usize + 1) as u64,
                 };
                 let cnt = (*n as u64).min(llen - prev);
@@ -373,86 +372,11 @@ async fn interpret(
                 }
                 let es: Vec<Entry> = w.leader_log[prev as usize..(prev + cnt) as usize].to_vec();
                 let prev_term = w.leader_term_at(prev);
-                // classification against the model BEFORE the call
-                let before = w.model.clone();
-                let run_start = before.last_term_run_start();
-                let last_term = before.entries.values().next_back().map(|e| e.term).unwrap_or(0);
-                let exp = w.model.conflict_append(prev, prev_term, &es);
-                let ret = log.filter_out_conflicts_and_append(prev, prev_term, es.clone()).await.map_err(|_| Stop::IoError)?;
-                let ret_t = ret.map(|l| (l.index, l.term));
-                trace.extend([3, prev, prev_term, cnt, es[0].term, es.last().unwrap().term]);
-                let req_last = es.last().map(|e| (e.index, e.term));
-                kind = match &exp {
-                    ConflictAppend::ResetReplace => {
-                        labels.push("prev0_reset");
-                        if !before.is_empty() {
-                            labels.push("prev0_reset_onto_nonempty_log");
-                        }
-                        trace.push(30);
-                        if ret_t != req_last {
-                            return Err(Stop::Violation(
-                                "C19:conflict-append-return-mismatch".into(),
-                                format!("op#{opno} prev=(0,0) entries={} returned {:?}, documented new last log id {:?}", show(&es), ret_t, req_last),
-                            ));
-                        }
-                        "prev0-reset"
-                    }
-                    ConflictAppend::Rejected => {
-                        labels.push("rejected");
-                        trace.push(31);
-                        if !w.model.last_log_id_is_ambiguous() && ret_t.is_some() && ret_t != w.model.last_log_id() {
-                            return Err(Stop::Violation(
-                                "C19:conflict-append-return-mismatch".into(),
-                                format!("op#{opno} rejected request prev=({prev},{prev_term}) returned {:?}; documented: None or current last log id {:?}", ret_t, w.model.last_log_id()),
-                            ));
-                        }
-                        "rejected"
-                    }
-                    ConflictAppend::Accepted { truncated_from, appended, retained_beyond } => {
-                        let overlap: Vec<&Entry> = es.iter().filter(|e| e.index <= before.last()).collect();
-                        if overlap.is_empty() {
-                            labels.push("no_overlap_tail_append");
-                        } else if overlap[0].index >= run_start && overlap[0].term == last_term && overlap.last().unwrap().term == last_term {
-                            labels.push("fast_path_overlap");
-                        } else {
-                            labels.push("slow_path");
-                        }
-                        trace.extend([32, truncated_from.unwrap_or(0), *appended as u64, *retained_beyond as u64]);
-                        if *appended > 0 && w.trunc_cur_seg_pending {
-                            w.nontrivial = true;
-                            labels.push("trunc_into_cur_segment_then_append");
-                        }
-                        let k = if let Some(d) = truncated_from {
-                            if *d > run_start {
-                                labels.push("trunc_into_cur_segment");
-                                w.trunc_cur_seg_pending = true;
-                            } else if *d == run_start {
-                                labels.push("trunc_at_segment_start");
-                            } else {
-                                labels.push("trunc_below_segment");
-                            }
-                            if es.last().unwrap().index < before.last() {
-                                labels.push("trunc_replacement_shorter_than_old_tail");
-                            }
-                            "conflict-truncate"
-                        } else if *appended > 0 {
-                            labels.push("accepted_tail_append");
-                            "conflict-append"
-                        } else {
-                            labels.push("accepted_idempotent");
-                            "conflict-noop"
-                        };
-                        if *retained_beyond {
-                            labels.push("ret_ambiguous_not_judged");
-                        } else if ret_t != req_last {
-                            return Err(Stop::Violation(
-                                "C19:conflict-append-return-mismatch".into(),
-                                format!("op#{opno} accepted request prev=({prev},{prev_term}) entries={} returned {:?}, expected last matched = new last log id {:?}", show(&es), ret_t, req_last),
-                            ));
-                        }
-                        k
-                    }
-                };
+                if w.model.boundary_ambiguous && es[0].index <= w.model.boundary.0 {
+                    labels.push("skipped_prev_on_ambiguous_boundary");
+                    continue;
+                }
+                kind = replicate(log, &mut w, opno, prev, prev_term, es, trace, labels).await?;
             }
             Op::Purge { upto, beyond } => {
                 kind = "purge";
@@ -517,7 +441,7 @@ async fn interpret(
 /// not depend on it, and the code explicitly anticipates it ("truncation + re-insert" pull-back).
 async fn interpret_free(
     c: &Case,
-    log: &Log,
+    log: &Arc<Log>,
     trace: &mut Vec<u64>,
     labels: &mut Vec<&'static str>,
     nontrivial: &mut bool,
@@ -609,6 +533,8 @@ async fn interpret_free(
                     1 | 2 => hi.saturating_sub(*back as u64 + if *anchor == 2 { (bits >> 12) & 3 } else { 0 }).max(lo.min(hi)).max(hi.min(1)),
                     _ => lo + pick(*prev_free, (hi - lo) as usize + 1) as u64,
                 };
+                // 1/8: catch-up from the very start (virtual position), also over a purged prefix
+                let prev = if (bits >> 13) & 7 == 0 { 0 } else { prev };
                 if w.model.term_at_is_ambiguous(prev) {
                     labels.push("skipped_prev_on_ambiguous_boundary");
                     continue;
@@ -653,77 +579,21 @@ async fn interpret_free(
                             t += 1;
                         }
                     }
+                    if prev + 1 + j == w.model.boundary.0 {
+                        // purged entries are committed: the sender has the same entry at the boundary
+                        t = t.max(w.model.boundary.1).min(w.cur_term);
+                    }
                     es.push(ent(prev + 1 + j, t));
                 }
                 if prev + es.len() as u64 > MAX_LEN as u64 + 8 {
                     labels.push("skipped_op");
                     continue;
                 }
-                let before = w.model.clone();
-                let run_start = before.last_term_run_start();
-                let last_term = before.entries.values().next_back().map(|e| e.term).unwrap_or(0);
-                let exp = w.model.conflict_append(prev, prev_term, &es);
-                let ret = log.filter_out_conflicts_and_append(prev, prev_term, es.clone()).await.map_err(|_| Stop::IoError)?;
-                let ret_t = ret.map(|l| (l.index, l.term));
-                trace.extend([3, prev, prev_term, es.len() as u64, es[0].term, es.last().unwrap().term]);
-                let req_last = es.last().map(|e| (e.index, e.term));
-                kind = match &exp {
-                    ConflictAppend::ResetReplace => {
-                        labels.push("prev0_reset");
-                        if ret_t != req_last {
-                            return Err(Stop::Violation("C19:conflict-append-return-mismatch".into(), format!("op#{opno} prev=(0,0) entries={} returned {:?}, documented new last log id {:?}", show(&es), ret_t, req_last)));
-                        }
-                        "prev0-reset"
-                    }
-                    ConflictAppend::Rejected => {
-                        labels.push("rejected");
-                        if !w.model.last_log_id_is_ambiguous() && ret_t.is_some() && ret_t != w.model.last_log_id() {
-                            return Err(Stop::Violation("C19:conflict-append-return-mismatch".into(), format!("op#{opno} rejected request prev=({prev},{prev_term}) returned {:?}; documented: None or current last log id {:?}", ret_t, w.model.last_log_id())));
-                        }
-                        "rejected"
-                    }
-                    ConflictAppend::Accepted { truncated_from, appended, retained_beyond } => {
-                        let overlap: Vec<&Entry> = es.iter().filter(|e| e.index <= before.last()).collect();
-                        if overlap.is_empty() {
-                            labels.push("no_overlap_tail_append");
-                        } else if overlap[0].index >= run_start && overlap[0].term == last_term && overlap.last().unwrap().term == last_term {
-                            labels.push("fast_path_overlap");
-                        } else {
-                            labels.push("slow_path");
-                        }
-                        trace.extend([32, truncated_from.unwrap_or(0), *appended as u64, *retained_beyond as u64]);
-                        if *appended > 0 && w.trunc_cur_seg_pending {
-                            w.nontrivial = true;
-                            labels.push("trunc_into_cur_segment_then_append");
-                        }
-                        let k = if let Some(d) = truncated_from {
-                            if *d > run_start {
-                                labels.push("trunc_into_cur_segment");
-                                w.trunc_cur_seg_pending = true;
-                            } else if *d == run_start {
-                                labels.push("trunc_at_segment_start");
-                            } else {
-                                labels.push("trunc_below_segment");
-                                if es.iter().any(|e| e.index == *d && e.term == last_term) {
-                                    labels.push("trunc_below_segment_reinsert_same_term");
-                                }
-                            }
-                            "conflict-truncate"
-                        } else if *appended > 0 {
-                            labels.push("accepted_tail_append");
-                            "conflict-append"
-                        } else {
-                            labels.push("accepted_idempotent");
-                            "conflict-noop"
-                        };
-                        if *retained_beyond {
-                            labels.push("ret_ambiguous_not_judged");
-                        } else if ret_t != req_last {
-                            return Err(Stop::Violation("C19:conflict-append-return-mismatch".into(), format!("op#{opno} accepted request prev=({prev},{prev_term}) entries={} returned {:?}, expected last matched = new last log id {:?}", show(&es), ret_t, req_last)));
-                        }
-                        k
-                    }
-                };
+                if w.model.boundary_ambiguous && es[0].index <= w.model.boundary.0 {
+                    labels.push("skipped_prev_on_ambiguous_boundary");
+                    continue;
+                }
+                kind = replicate(log, &mut w, opno, prev, prev_term, es, trace, labels).await?;
             }
             Op::Purge { upto, beyond } => {
                 kind = "purge";
@@ -769,6 +639,134 @@ async fn interpret_free(
     }
     *nontrivial = w.nontrivial;
     Ok(())
+}
+
+/// Leader proposal path: the real `ReplicationHandler::generate_new_entries` allocates the indexes
+/// (`pre_allocate_id_range`) and inserts the entries. They must land right after the leader's last entry.
+async fn leader_generate(log: &Arc<Log>, want: &[Entry], term: u64, opno: usize, boundary: u64) -> Result<(), Stop> {
+    let payloads: Vec<_> = want.iter().map(|e| e.payload.clone().expect("payload")).collect();
+    let got = Rep::new(1).generate_new_entries(payloads, term, log).await.map_err(|_| Stop::IoError)?;
+    if got != want {
+        // root causes differ: a purge boundary above the old tail (snapshot install) that the allocator
+        // never learned about, versus a tail truncation that was not given back to the allocator
+        let sig = if got.first().is_some_and(|e| e.index <= boundary) { "C19:allocated-index-at-or-below-purge-boundary" } else { "C19:allocated-index-not-at-tail" };
+        return Err(Stop::Violation(
+            sig.into(),
+            format!("op#{opno} leader proposal: generate_new_entries produced {} but the log's tail (purge boundary {boundary}) requires {}", show(&got), show(want)),
+        ));
+    }
+    Ok(())
+}
+
+/// Executes one conflict-aware append on the model and on the real log, classifies it and judges the
+/// return value where the documentation is unambiguous. Returns the signature-kind of the op.
+#[allow(clippy::too_many_arguments)]
+async fn replicate(
+    log: &Log,
+    w: &mut World,
+    opno: usize,
+    prev: u64,
+    prev_term: u64,
+    es: Vec<Entry>,
+    trace: &mut Vec<u64>,
+    labels: &mut Vec<&'static str>,
+) -> Result<&'static str, Stop> {
+    // classification against the model BEFORE the call
+    let before = w.model.clone();
+    let run_start = before.last_term_run_start();
+    let last_term = before.entries.values().next_back().map(|e| e.term).unwrap_or(0);
+    let exp = w.model.conflict_append(prev, prev_term, &es);
+    let ret = log.filter_out_conflicts_and_append(prev, prev_term, es.clone()).await.map_err(|_| Stop::IoError)?;
+    let ret_t = ret.map(|l| (l.index, l.term));
+    trace.extend([3, prev, prev_term, es.len() as u64, es[0].term, es.last().unwrap().term]);
+    let req_last = es.last().map(|e| (e.index, e.term));
+    if prev == 0 && prev_term == 0 {
+        labels.push("prev0_virtual_position");
+        if !before.is_empty() {
+            labels.push("prev0_onto_nonempty_log");
+        }
+    }
+    let kind = match &exp {
+        ConflictAppend::Rejected => {
+            labels.push("rejected");
+            trace.push(31);
+            if !w.model.last_log_id_is_ambiguous() && ret_t.is_some() && ret_t != w.model.last_log_id() {
+                return Err(Stop::Violation(
+                    "C19:conflict-append-return-mismatch".into(),
+                    format!("op#{opno} rejected request prev=({prev},{prev_term}) returned {:?}; documented: None or current last log id {:?}", ret_t, w.model.last_log_id()),
+                ));
+            }
+            "rejected"
+        }
+        ConflictAppend::Accepted { skipped_purged, nothing_left, truncated_from, appended, retained_beyond } => {
+            if *skipped_purged > 0 {
+                labels.push("request_entries_below_purge_boundary_skipped");
+            }
+            if *nothing_left {
+                // code comment: "acknowledge the boundary when nothing else is left"; judged only when the
+                // request's last entry IS the boundary (both readings of the return value coincide)
+                labels.push("request_entirely_below_purge_boundary");
+                trace.push(33);
+                if req_last.map(|x| x.0) == Some(before.boundary.0) {
+                    if ret_t.map(|x| x.0) != Some(before.boundary.0) {
+                        return Err(Stop::Violation(
+                            "C19:conflict-append-return-mismatch".into(),
+                            format!("op#{opno} request prev=({prev},{prev_term}) entries={} ends at the purge boundary {:?} but returned {:?}", show(&es), before.boundary, ret_t),
+                        ));
+                    }
+                } else {
+                    labels.push("ret_ambiguous_not_judged");
+                }
+                return Ok("conflict-noop");
+            }
+            let overlap: Vec<&Entry> = es.iter().filter(|e| e.index <= before.last() && e.index > before.boundary.0).collect();
+            if overlap.is_empty() {
+                labels.push("no_overlap_tail_append");
+            } else if overlap[0].index >= run_start && overlap[0].term == last_term && overlap.last().unwrap().term == last_term {
+                labels.push("fast_path_overlap");
+            } else {
+                labels.push("slow_path");
+            }
+            trace.extend([32, truncated_from.unwrap_or(0), *appended as u64, *retained_beyond as u64]);
+            if *appended > 0 && w.trunc_cur_seg_pending {
+                w.nontrivial = true;
+                labels.push("trunc_into_cur_segment_then_append");
+            }
+            let k = if let Some(d) = truncated_from {
+                if *d > run_start {
+                    labels.push("trunc_into_cur_segment");
+                    w.trunc_cur_seg_pending = true;
+                } else if *d == run_start {
+                    labels.push("trunc_at_segment_start");
+                } else {
+                    labels.push("trunc_below_segment");
+                    if es.iter().any(|e| e.index == *d && e.term == last_term) {
+                        labels.push("trunc_below_segment_reinsert_same_term");
+                    }
+                }
+                if es.last().unwrap().index < before.last() {
+                    labels.push("trunc_replacement_shorter_than_old_tail");
+                }
+                "conflict-truncate"
+            } else if *appended > 0 {
+                labels.push("accepted_tail_append");
+                "conflict-append"
+            } else {
+                labels.push("accepted_idempotent");
+                "conflict-noop"
+            };
+            if *retained_beyond {
+                labels.push("ret_ambiguous_not_judged");
+            } else if ret_t != req_last {
+                return Err(Stop::Violation(
+                    "C19:conflict-append-return-mismatch".into(),
+                    format!("op#{opno} accepted request prev=({prev},{prev_term}) entries={} returned {:?}, expected last matched = new last log id {:?}", show(&es), ret_t, req_last),
+                ));
+            }
+            k
+        }
+    };
+    Ok(kind)
 }
 
 /// Compares every observable of the real log with the model. `kind` = class of the last mutation
